@@ -46,7 +46,12 @@ def run(rep, tier, props):
         for ci, c in enumerate(CONFIGS[tier]):
             model = tlc.make_model('Partition', sc, constants=consts_tla(c),
                                    invariants=INVARIANTS + ['Export'])
-            res = tlc.run_tlc(model, sc, workers=12, coverage=(tier == 'quick' and ci == 0), timeout=3000)
+            cap = SAMPLE[tier] // len(CONFIGS[tier])
+            # every state is exported; all short histories and all states where an ideal clause fails on the transcription are
+            # kept, the rest is a uniform reservoir sample taken while the log is parsed (memory stays bounded)
+            must = lambda r: len(r['hist']) <= 1 or not all(r['idealOK'].values())
+            res = tlc.run_tlc(model, sc, workers=12, coverage=(tier == 'quick' and ci == 0), timeout=3000,
+                              export_sample=(cap, rep.seed * 1000 + ci, must))
             tlc.require_ok(res, 'Partition cfg %d' % ci, allow_violation=True)
             rep.add_tlc('Partition[%s]' % ','.join('%s=%s' % kv for kv in c.items() if kv[0] in ('NS', 'Sizes', 'MaxSteps', 'MaxSlices')), res)
             if res['violated']:
@@ -57,12 +62,7 @@ def run(rep, tier, props):
             if not res['exports']:
                 raise tlc.MachineryError('Partition cfg %d exported nothing' % ci)
             recs = res['exports']
-            cap = SAMPLE[tier] // len(CONFIGS[tier])
-            if len(recs) > cap:
-                must = [r for r in recs if len(r['hist']) <= 1 or not all(r['idealOK'].values())]
-                rest = [r for r in recs if not (len(r['hist']) <= 1 or not all(r['idealOK'].values()))]
-                rng.shuffle(rest)
-                recs = must + rest[:max(0, cap - len(must))]
+            if res['exports_seen'] > len(recs):
                 rep.exhaustive = False
             for k, r in enumerate(recs):
                 jobs.append(dict(consts=c, rec=r, labels=('int', 'str', 'intperm')[k % 3]))
